@@ -48,6 +48,16 @@ func ControlFlow(thorough bool, emit func(string)) {
 	for _, s := range d1 {
 		wrap(s)
 	}
+	// two compound statements in one loop body: a finished inner loop / if followed by an if that leaves the outer loop
+	inner := []string{"while y < 1 { y = y + 1 }", "while 0 { }", "if y { y = 0 }", "if 0 { } else { y = 1 }", "`{% if y { 1 } %}`", "y = 0; while y < 2 { y = y + 1; if y { break } }", "while y < 1 { y = y + 1; continue }"}
+	leave := []string{"if x > 1 { break }", "if x > 1 { continue }", "if x > 1 { if 1 { break } }", "if x > 1 { x } else { continue }", "`{% if x > 1 { break } %}`", "if x > 1 { return x }"}
+	for _, in := range inner {
+		for _, lv := range leave {
+			wrap("while x < 30 { x = x + 1; " + in + "; " + lv + " }")
+			wrap("while x < 30 { x = x + 1; " + lv + "; " + in + " }")
+			wrap("func g(){ while x < 30 { x = x + 1; " + in + "; " + lv + " }; x }; g()")
+		}
+	}
 	// depth 2: a depth-1 statement inside a loop / branch
 	step := 5
 	if thorough {
